@@ -296,6 +296,8 @@ def check_case(case):
 
         from vk import cli
 
+        cli.use_case(case)
+
         d = tempfile.mkdtemp(prefix="vk20.")
         try:
             mode = {"sample": "sample", "genes": "genes", "custom": "my label"}[case["label"]]
@@ -382,6 +384,8 @@ def _check_multi(case):
         # command-line tier (a quarter of the cases): `cnvkit.py export seg` on the same files
         if gen.pick(case, "cli", 4) == 0 and not out:
             from vk import cli
+
+            cli.use_case(case)
 
             diff = cli.export_seg_diff([f + ".cns" for f in fnames], tmp, case["enumerate"])
             if diff:
